@@ -44,4 +44,33 @@ Definition graph_ok (raws : list (raw F)) : Prop :=
                       /\ Forall (fun p => In p (map (raw_id F) raws)) (r_preds F r)
                       /\ negative_amount F f_neg r = false) raws.
 
+(* what the theorems assume about Python's str(float) / float(text): float(str(x)) is x again and str(x)
+   is not the empty text (an empty cell is read as None).  Evaluated by the harness on every amount of
+   every case (CsvCheck.fv_ok). *)
+Definition float_codec_ok (repr_float : F -> text) (parse_float : text -> option F) : Prop :=
+  (forall x, parse_float (repr_float x) = Some x) /\ (forall x, repr_float x <> []).
+
+(* ---------- the same domain as a boolean (evaluated on generated cases, used for the examples);
+   sound for the predicates above: RoundTrip.wbs_ok_b_sound ---------- *)
+Definition custom_name_ok_b (k : text) : bool :=
+  copied_attr k && negb (mem_text k csv_default_fields) && negb (mem_text k csv_task_reserved)
+  && text_eqb (strip_cell k) k.
+
+Definition date_ok_b (o : option Z) : bool :=
+  match o with Some d => (date_lo <=? d) && (d <? date_hi) | None => true end.
+
+Definition raw_ok_b (r : raw F) : bool :=
+  let f := r_f F r in
+  date_ok_b (f_start F f) && date_ok_b (f_end F f) && date_ok_b (f_min_start F f)
+  && nodup_textb (map fst (f_custom F f)) && forallb custom_name_ok_b (map fst (f_custom F f)).
+
+Definition graph_ok_b (raws : list (raw F)) : bool :=
+  let ids := map (raw_id F) raws in
+  nodup_zb ids
+  && forallb (fun r => nodup_zb (r_preds F r) && forallb (fun p => mem_z p ids) (r_preds F r)
+                       && negb (negative_amount F f_neg r)) raws.
+
+Definition wbs_ok_b (w : wbs F) : bool :=
+  forallb raw_ok_b (flatten_plain w) && graph_ok_b (flatten_plain w).
+
 End Spec.
